@@ -1,5 +1,25 @@
 (** DSepProofs.v — correctness of the executable d-separation checker of DSep.v with respect
-    to the textbook (path based) definition. *)
+    to the textbook (path based) definition.
+
+    Proved for every well-formed digraph (acyclicity is not needed):
+      [upaths_spec], [blockedb_spec], [dsepb_correct], [dsep_sym], [dsepb_sym],
+      [min_sepb_spec], [adjacent_never_separated]; locally [ds_desc_spec].
+    NOT proved in general, kept as [_statement] with an exhaustive [_partial] on <= 4 nodes:
+      [min_dsep_set_statement] (the Tian-Paz set returned by [get_d_separation_set] is a
+      separator from which no node can be removed), [nx_min_sepb_statement].
+
+    Validation against the real library (cai-causal-graph on networkx 3.2.1, scratch runs):
+      - [dsepb] = is_d_separated and [min_sepb] = is_minimally_d_separated on ALL DAGs with
+        <= 4 labelled nodes (all pairwise disjoint X, Y, Z with X, Y non-empty; all ordered
+        pairs and all Z avoiding the pair), on 400 random 5-node DAGs (all triples) and on
+        random 6- and 7-node DAGs (random triples): no disagreement;
+      - [min_dsep_set] = get_d_separation_set (as sets) on all DAGs with <= 4 nodes, 2000
+        random 5-node DAGs and random 6-/7-node DAGs: no disagreement;
+      - "no single node can be removed" = "no proper subset separates" =
+        networkx.is_minimal_d_separator on all DAGs with <= 4 nodes and 2960 random DAGs with
+        5-7 nodes (computed with networkx.d_separated): no disagreement.
+    Outside the property's quantifier (X, Y, Z not disjoint) the library differs from the
+    textbook definition, e.g. on a -> b: is_d_separated('a','b',{'a'}) = True. *)
 From CG Require Import Base Digraph DSep.
 From Coq Require Import Relations.Relation_Operators Relations.Operators_Properties Arith.
 Set Implicit Arguments.
